@@ -101,4 +101,7 @@ Theorem C08_Exp_Cosine_end_to_end scale sigma (x0 : R) (xs : seq R) : Rsorted x0
   den (size xs) (to_symm_qsm rfops (k_Cosine scale sigma) x0 xs) i j
     = (sigma * sigma * cos (2 * PI / scale * Rabs (nth x0 xs i - nth x0 xs j)))%Rr.
 Proof. by move=> srt i j; split; [exact: Exp_symm_qsm_closed_form | exact: Cosine_symm_qsm_closed_form]. Qed.
+(* SHO in its three regimes (critical, under- and over-damped outside the band |Q - 1/2| < 1e-3 that the source treats as critical) *)
+Theorem C08_SHO_laws w q sigma : sho_regime w q -> @ss_laws Rf R (k_SHO w q sigma).
+Proof. exact: SHO_laws. Qed.
 Print Assumptions C08_Matern32_end_to_end.
